@@ -300,3 +300,65 @@ package ssh
 //@ loop 1 invariant implies(bestSize == 0, forall(k, 0, rangeindex + 1, !inr(t5, k, req)))
 //@ loop 1 invariant implies(bestSize != 0, chosen(t5, rangeindex + 1, req, best, bestSize))
 //@ canary ensures result1 == nil
+
+// ---- C26: packet readers ----
+// Stream cipher + MAC packets (RFC 4253 section 6): no input stream makes the
+// reader index out of range; a payload is only returned after the MAC,
+// computed over sequence number || packet, compared equal; declared lengths
+// above maxPacket and packets shorter than their padding are refused.
+//@ func (*streamPacketCipher).readCipherPacket
+//@ props C26
+//@ requires s.cipher != nil
+//@ requires ref(s.packetData) != ref(s.macResult) || cap(s.packetData) == 0
+//@ modifies heap
+//@ ensures implies(result1 == nil, 1 <= len(result0) && len(result0) <= 262143)
+//@ ensures implies(result1 != nil, result0 == nil)
+//@ check_at "s.macResult = s.mac.Sum(s.macResult[:0])" ghost(s.mac, hlen) == 4 + 4 + length
+//@ check_at "s.macResult = s.mac.Sum(s.macResult[:0])" ghost(s.mac, hbuf)[0] == seqNum / 16777216 && ghost(s.mac, hbuf)[1] == (seqNum / 65536) % 256 && ghost(s.mac, hbuf)[2] == (seqNum / 256) % 256 && ghost(s.mac, hbuf)[3] == seqNum % 256
+//@ check_at "return s.packetData[:length-paddingLength-1], nil" implies(s.mac != nil, len(mac) == len(s.macResult) && forall(i, 0, len(mac), s.macResult[i] == mac[i]))
+//@ canary ensures result1 != nil
+
+// AES-GCM packets (RFC 5647 as used by OpenSSH): refuses declared lengths above
+// maxPacket, empty packets and padding that does not fit; never indexes out of range.
+//@ func (*gcmCipher).incIV
+//@ props C26
+//@ requires len(c.iv) == 12
+//@ modifies c.iv[4:12]
+//@ loop 1 invariant 3 <= i && i <= 11 && sameoutside(c.iv[4:12])
+
+//@ func (*gcmCipher).readCipherPacket
+//@ props C26
+//@ requires c.aead != nil && spec.aeadoh(c.aead) == 16 && len(c.iv) == 12
+//@ modifies heap
+//@ ensures implies(result1 == nil, 1 <= len(result0) && len(result0) <= 262139)
+//@ ensures implies(result1 != nil, result0 == nil)
+//@ canary ensures result1 != nil
+
+// CBC packets (RFC 4253 section 6): the block mode is never handed a partial
+// block, no declared length makes the reader index out of range, a payload is
+// only returned after the MAC over sequence number || packet compared equal.
+//@ func (*cbcCipher).readCipherPacketLeaky
+//@ props C26
+//@ reindex
+//@ requires c.decrypter != nil && (spec.bsize(c.decrypter) == 8 || spec.bsize(c.decrypter) == 16)
+//@ requires cap(c.packetData) >= 16 && c.macSize <= 1024
+//@ requires ref(c.packetData) != ref(c.macResult)
+//@ modifies heap
+//@ ensures implies(result1 == nil, 1 <= len(result0) && len(result0) <= 262139)
+//@ ensures implies(result1 != nil, result0 == nil)
+//@ check_at "c.macResult = c.mac.Sum(c.macResult[:0])" ghost(c.mac, hlen) == 4 + 4 + length
+//@ check_at "c.macResult = c.mac.Sum(c.macResult[:0])" ghost(c.mac, hbuf)[0] == seqNum / 16777216 && ghost(c.mac, hbuf)[1] == (seqNum / 65536) % 256 && ghost(c.mac, hbuf)[2] == (seqNum / 256) % 256 && ghost(c.mac, hbuf)[3] == seqNum % 256
+//@ check_at "return c.packetData[prefixLen:paddingStart], nil" implies(c.mac != nil, len(mac) == len(c.macResult) && forall(i, 0, len(mac), c.macResult[i] == mac[i]))
+//@ canary ensures result1 != nil
+
+// chacha20-poly1305@openssh.com packets: the ChaCha20 instances never run past
+// their 2^32-block limit (they are created per packet), no declared length makes
+// the reader index out of range, empty packets and misfitting padding are refused.
+//@ func (*chacha20Poly1305Cipher).readCipherPacket
+//@ props C26
+// c.buf is an array of its own (newChaCha20Cipher and this function allocate it with make)
+//@ requires cap(c.buf) >= 4 && ref(c.buf) >= 0
+//@ modifies heap
+//@ ensures implies(result1 == nil, 1 <= len(result0) && len(result0) <= 262139)
+//@ ensures implies(result1 != nil, result0 == nil)
+//@ canary ensures result1 != nil
